@@ -4,9 +4,11 @@ import (
 	"fmt"
 
 	"github.com/EliCDavis/polyform/math/trs"
+	"github.com/EliCDavis/polyform/modeling"
 	"github.com/EliCDavis/polyform/modeling/extrude"
 	"github.com/EliCDavis/polyform/modeling/primitives"
 	"github.com/EliCDavis/polyform/modeling/repeat"
+	"github.com/EliCDavis/polyform/modeling/triangulation"
 	zz "github.com/EliCDavis/polyform/zzverif"
 	"github.com/EliCDavis/vector/vector2"
 	"github.com/EliCDavis/vector/vector3"
@@ -137,4 +139,25 @@ func ZZ_C02_Primitives() {
 	case 8:
 		WF(primitives.UnitCube(), "UnitCube")
 	}
+}
+
+// constrained triangulation: a constraint edge that cuts through a triangle introduces new vertices; the result
+// must still be well-formed. One triangle, a rectangular keep-in constraint whose horizontal edge sits at a
+// symbolic height: above it only the apex is inside, below it the two base vertices are.
+func ZZ_C02_GenConstrainedTriangulation() {
+	pts := []vector2.Float64{vector2.New(0., 0.), vector2.New(10., 0.), vector2.New(5., 10.)}
+	h := zz.Float64("h")
+	zz.Assume(h >= 0.5)
+	zz.Assume(h <= 9.5)
+	var shape []vector2.Float64
+	if zz.Bool("keep the apex side") {
+		shape = []vector2.Float64{vector2.New(-5., h), vector2.New(15., h), vector2.New(15., 15.), vector2.New(-5., 15.)}
+	} else {
+		shape = []vector2.Float64{vector2.New(-5., -5.), vector2.New(15., -5.), vector2.New(15., h), vector2.New(-5., h)}
+	}
+	zz.Reach("input")
+	m := triangulation.ConstrainedBowyerWatson(pts, []triangulation.Constraint{triangulation.NewConstraint(shape)})
+	WF(m, "ConstrainedBowyerWatson")
+	zz.Assert(m.Topology() == modeling.TriangleTopology, "ConstrainedBowyerWatson returns triangles")
+	zz.Reach("done")
 }
